@@ -9,7 +9,7 @@
 (* Dump is the serialisation; Parse its inverse, returning the value and the *)
 (* unconsumed rest.  Integers are digit strings (arbitrary precision).       *)
 (* Text is a sequence of code points, written in the encoding both sides are  *)
-(* given ("utf-8", the default, or "latin-1"); the encoding applies to text   *)
+(* given ("utf-8", the default, "latin-1", "utf-16-le"); it applies to text   *)
 (* at every nesting depth.                                                     *)
 (***************************************************************************)
 EXTENDS Bytes, Naturals, Sequences, TLC
@@ -22,7 +22,9 @@ Wrap(payload, code) == Dec(Len(payload)) \o <<58>> \o payload \o <<code>>
 \* ---- text encodings (code points < 65536)
 Utf8(c) == IF c < 128 THEN <<c>> ELSE IF c < 2048 THEN <<192 + (c \div 64), 128 + (c % 64)>>
            ELSE <<224 + (c \div 4096), 128 + ((c \div 64) % 64), 128 + (c % 64)>>
-EncText(enc, cps) == IF enc = "latin-1" THEN cps ELSE Concat([ i \in 1 .. Len(cps) |-> Utf8(cps[i]) ])
+EncText(enc, cps) == IF enc = "latin-1" THEN cps
+                     ELSE IF enc = "utf-16-le" THEN Concat([ i \in 1 .. Len(cps) |-> <<cps[i] % 256, cps[i] \div 256>> ])      \* (an encoding that is no superset of ASCII)
+                     ELSE Concat([ i \in 1 .. Len(cps) |-> Utf8(cps[i]) ])
 Encodable(enc, cps) == enc # "latin-1" \/ \A i \in 1 .. Len(cps) : cps[i] < 256
 RECURSIVE DecUtf8(_)
 \* code points of well-formed UTF-8 octets (<<0 - 1>> in front of whatever follows a malformed place)
@@ -33,7 +35,9 @@ DecUtf8(b) ==
        ELSE IF c >= 192 /\ c < 224 /\ Len(b) >= 2 THEN <<(c - 192) * 64 + (b[2] - 128)>> \o DecUtf8(SubSeq(b, 3, Len(b)))
        ELSE IF c >= 224 /\ c < 240 /\ Len(b) >= 3 THEN <<(c - 224) * 4096 + (b[2] - 128) * 64 + (b[3] - 128)>> \o DecUtf8(SubSeq(b, 4, Len(b)))
        ELSE <<0 - 1>>
-DecText(enc, b) == IF enc = "latin-1" THEN b ELSE DecUtf8(b)
+DecText(enc, b) == IF enc = "latin-1" THEN b
+                   ELSE IF enc = "utf-16-le" THEN (IF Len(b) % 2 = 1 THEN <<0 - 1>> ELSE [ i \in 1 .. (Len(b) \div 2) |-> b[2 * i - 1] + 256 * b[2 * i] ])
+                   ELSE DecUtf8(b)
 
 RECURSIVE DumpE(_, _)
 DumpE(v, enc) ==
